@@ -95,6 +95,11 @@ def gen_cases(tier, seed):
     for tt in TYPES:
         for what, n in (("len_long", 16383), ("len_long", 16384), ("len_long", 32767), ("instr_long", 16383), ("instr_long", 20000), ("val_int", 400), ("val_int", 320), ("val_frac", 400)):
             cases.append({"kind": "special", "what": what, "n": n, "tt": tt})
+    # literals beyond the range of every floating type: Overflow (at parse time or at run time), never a stored infinity
+    for tt in TYPES:
+        for n in (39, 45, 309, 400):
+            for tail in ("", "!", "#", ".5", ".25#"):
+                cases.append({"kind": "special", "what": "huge_literal", "n": n, "tt": tt, "tail": tail})
     # random values inside the ranges
     nr = 4000 if tier == "quick" else 300000
     for _ in range(nr):
@@ -128,6 +133,11 @@ def build(case):
                 return src, "", None, ("value", tt, convert(("&", 2 * n + 1), tt)[1])
             except BasicError as e:
                 return src, "", None, ("error", e.code)
+        if case["what"] == "huge_literal":
+            # a rejection of any kind is the parser's business (C07 / C10); what must not happen is that the value is stored
+            lit = "1" + "0" * case["n"] + case["tail"]
+            fits = tt == "#" and case["n"] < 309 and not case["tail"].endswith("!")
+            return 'T%s = %s\nPRINT T%s > 1\n' % (tt, lit, tt), "", None, ("no_infinity", fits)
         # VAL of more digits than a DOUBLE can hold: Overflow, never infinity
         src = 'T%s = VAL(STRING$(%d, "9")%s)\nPRINT T%s\n' % (tt, case["n"], ' + ".5"' if case["what"] == "val_frac" else "", tt)
         return src, "", None, ("error", 6)
@@ -244,6 +254,12 @@ def judge(case, src, exp, rep):
         return ("slot_invariant", "a variable holds a value that is not of its type/range: %s" % mon[0])
     if oc[0] == "panic":
         return ("panic", "panic: %s" % (rep["panic"],))
+    if exp[0] == "no_infinity":
+        if oc[0] in ("parse_error", "lint_error") or (oc[0] == "error" and oc[1] == 6):
+            return None
+        if oc[0] == "ok" and exp[1] and rep["run"]["stdout"] == "-1 \r\n":
+            return None
+        return ("literal_stored", "a literal beyond the range of the variable was stored or mis-handled: %s %r" % (oc, (rep.get("run") or {}).get("stdout")))
     if exp[0] == "lint_or_error":
         if oc[0] == "lint_error" and oc[1] == "Overflow":
             return None
@@ -293,7 +309,7 @@ def run_case(w, case, r, profile_tag=""):
     m = rep.get("mon") or {}
     r.count("slots_checked_at_statement_boundaries", m.get("c06_slots", 0))
     r.count("statement_boundary_walks", m.get("c06_walks", 0))
-    if exp[0] in ("error", "lint_or_error") or (exp[0] == "value" and case.get("ts") != case.get("tt")):
+    if exp[0] in ("error", "lint_or_error", "no_infinity") or (exp[0] == "value" and case.get("ts") != case.get("tt")):
         r.nontrivial.add(h64(src + stdin))
     if v is not None:
         what = case.get("route", case["kind"])
